@@ -1595,7 +1595,7 @@ func c08Sibling(rng *Rng, f *jqF) (*jqF, string) {
 			})
 		}
 		return g, "blank-runs"
-	case k < 80:
+	case k < 75:
 		done := false
 		c08WalkStrings(g, func(s string, isKey bool) string {
 			if done || !isKey || !rng.Chance(50) {
@@ -1607,8 +1607,47 @@ func c08Sibling(rng *Rng, f *jqF) (*jqF, string) {
 		if done {
 			return g, "one-key"
 		}
+	case k < 88:
+		// the same text up to the letter case of one quoted key / string literal / key
+		done := false
+		c08WalkStrings(g, func(s string, _ bool) string {
+			if done || !rng.Chance(50) || strings.ToUpper(s) == s {
+				return s
+			}
+			done = true
+			return strings.ToUpper(s[:1]) + s[1:]
+		})
+		if done {
+			return g, "letter-case"
+		}
 	}
 	return g, "same"
+}
+
+// c08CommentEnd: for a first binding whose program has several outputs `(A),(B)...`: the first
+// binding writes `(A) # <note> <line break> ,(B)...` (the comment ends at the line break: the whole
+// program), the sibling writes the same characters with a blank in place of the line break — the
+// comment swallows the rest, the sibling's program is `A` alone. ok=false: not applicable.
+func c08CommentEnd(first *c08Spec) (c08Spec, bool) {
+	if first.f == nil || first.f.Kind != "comma" || len(first.f.Items) < 2 {
+		return c08Spec{}, false
+	}
+	a := "(" + first.f.Items[0].text() + ")"
+	var rest []string
+	for _, it := range first.f.Items[1:] {
+		rest = append(rest, "("+it.text()+")")
+	}
+	whole := a + " # and\n," + strings.Join(rest, ",")
+	cut := a + " # and ," + strings.Join(rest, ",")
+	qWhole, e1 := gojq.Parse(whole)
+	qFirst, e2 := gojq.Parse(first.f.text())
+	qCut, e3 := gojq.Parse(cut)
+	qA, e4 := gojq.Parse(a)
+	if e1 != nil || e2 != nil || e3 != nil || e4 != nil || qWhole.String() != qFirst.String() || qCut.String() != qA.String() {
+		return c08Spec{}, false
+	}
+	first.txt = whole
+	return c08Spec{f: c08CopyF(first.f.Items[0]), txt: cut}, true
 }
 
 // c08Layout lays a compact jq program out the way people write it in a YAML block scalar: blanks
@@ -1696,6 +1735,13 @@ func c08GenSpecs(c *Case, rng *Rng, nb int, v0 bool, filterPct int, keepPct int,
 					sp.f = g4ArrF(sp.f, extra)
 				}
 			}
+		case siblings && rng.Chance(25) && specs[0].f.Kind == "comma":
+			if ce, ok := c08CommentEnd(&specs[0]); ok {
+				sp.f, sp.txt = ce.f, ce.txt
+				c.Note("sibling-filter:comment-ends-at-line-break-or-not")
+				break
+			}
+			fallthrough
 		case siblings:
 			var how string
 			sp.f, how = c08Sibling(rng, specs[0].f)
@@ -1706,7 +1752,7 @@ func c08GenSpecs(c *Case, rng *Rng, nb int, v0 bool, filterPct int, keepPct int,
 				c08BlankLits(rng, sp.f)
 			}
 		}
-		if sp.f != nil && rng.Chance(50) {
+		if sp.f != nil && sp.txt == "" && rng.Chance(50) {
 			if sp.txt = c08Layout(rng, sp.f.text()); sp.txt != sp.f.text() {
 				c.Note("filter-layout:blanks-line-breaks-comments")
 			}
